@@ -48,9 +48,20 @@ def mutate(text, rnd, vocab, other=None):
     return "".join(toks)
 
 
+def odd_x_forms():
+    return list(_ODD_X)
+
+
 def odd_x(rnd):
     """Grammar-valid but semantically unusual X programs."""
-    forms = [
+    forms = _ODD_X
+    s = rnd.choice(forms)
+    if rnd.random() < 0.3:
+        s = s.replace("1", rnd.choice(["2147483648", "4294967295", "#FFFFFFFF", "'z'", "(1)", "true", "\"\"", "f", "65536"]))
+    return s
+
+
+_ODD_X = [
         "proc main() is undefined_proc(1)",
         "proc main() is x := 1",
         "var x; var x; proc main() is x := 1",
@@ -102,11 +113,82 @@ def odd_x(rnd):
         "proc main(val x, val x) is skip",
         "proc p(array x) is x := x proc main() is skip",
         "proc p(array x) is x[0] := x proc main() is p(\"abc\")",
-    ]
-    s = rnd.choice(forms)
-    if rnd.random() < 0.3:
-        s = s.replace("1", rnd.choice(["2147483648", "4294967295", "#FFFFFFFF", "'z'", "(1)", "true", "\"\"", "f", "65536"]))
-    return s
+        "proc main() is var x; x := 1 proc main() is var x; x := 2",
+        "func f(val a) is var t; { t := a; return t } func f(val a) is var t; { t := a; return t + 1 } proc main() is 0(f(1))",
+        "proc p(val a, val a) is var a; a := 1 proc main() is p(1, 2)",
+        "var g; array g[3]; val g = 2; proc main() is g := 1",
+        "proc main() is val c = 5; var x; x := c[1]",
+        "proc main() is val c = 5; var i; { i := 0; c[i] := 1 }",
+        "proc main() is val c = 5; c := 1",
+        "proc p(array a) is a[0] := 1 proc main() is val c = 5; p(c)",
+        "proc main() is var main; { main := 1; main() }",
+        "proc main() is var x; x[0] := 1",
+        "proc p(val v) is v[0] := 1 proc main() is p(3)",
+        "proc p(val v) is v := 1 proc main() is p(3)",
+        "proc main() is var x; var x; x := 1",
+        "proc main() is main[0] := 1",
+        "proc main() is var y; y := main",
+        "proc main() is var y; y := main[1]",
+]
+
+
+KINDS = ["gval", "lval", "gvar", "lvar", "valformal", "arrayformal", "garray", "proc", "func", "procformal", "funcformal", "undeclared"]
+USES = ["value", "sub_rhs", "sub_lhs", "assign", "callstmt", "callexpr", "array_actual", "val_actual", "syscall_name",
+        "return_value", "condition", "array_length", "val_init", "sub_of_call", "nested_sub"]
+
+
+def kind_matrix_program(kind, use):
+    """A name of every declared kind put to every kind of use: most combinations are semantic errors or odd but legal."""
+    g = ["val gv = 1;", "var gr;", "array ga[4];"]
+    formals = {"valformal": "val n", "arrayformal": "array n", "procformal": "proc n", "funcformal": "func n"}
+    decl_g, decl_l, formal = "", "", ""
+    if kind == "gval":
+        decl_g = "val n = 2;"
+    elif kind == "gvar":
+        decl_g = "var n;"
+    elif kind == "garray":
+        decl_g = "array n[3];"
+    elif kind == "lval":
+        decl_l = "val n = 2;"
+    elif kind == "lvar":
+        decl_l = "var n;"
+    elif kind in formals:
+        formal = formals[kind]
+    elif kind == "proc":
+        decl_g = ""
+    uses = {
+        "value": "t := n", "sub_rhs": "t := n[1]", "sub_lhs": "n[1] := 3", "assign": "n := 3", "callstmt": "n(1)",
+        "callexpr": "t := n(1)", "array_actual": "takesarray(n)", "val_actual": "takesval(n)", "syscall_name": "n(65, 0)",
+        "return_value": "t := retn()", "condition": "if n then skip else skip", "array_length": "skip", "val_init": "skip",
+        "sub_of_call": "t := ga[n(1)]", "nested_sub": "ga[n[0]] := n[1]",
+    }
+    extra = ""
+    if use == "array_length":
+        extra = "array zz[n];"
+    if use == "val_init":
+        extra = "val zz = n;"
+    procs = ["proc takesarray(array a) is a[0] := 1", "proc takesval(val v) is skip"]
+    if kind == "proc":
+        procs.append("proc n(val q) is skip")
+    if kind == "func":
+        procs.append("func n(val q) is return q")
+    body = "{ t := 0; %s; 0(t) }" % uses[use]
+    if use == "return_value":
+        procs.append("func retn() is return 7")
+    actual = {"valformal": "5", "arrayformal": "ga", "procformal": "takesval", "funcformal": "idf"}.get(kind)
+    procs.append("func idf(val q) is return q")
+    if formal:
+        w = "proc w(%s) is %s var t; %s" % (formal, decl_l, body)
+        main = "proc main() is w(%s)" % actual
+    else:
+        w = "proc w() is %s var t; %s" % (decl_l, body)
+        main = "proc main() is w()"
+    globs = " ".join(g) + " " + decl_g
+    if extra and kind in ("gval", "gvar", "garray", "proc", "func", "undeclared"):
+        globs += " " + extra
+    elif extra:
+        w = w.replace(" var t;", " %s var t;" % extra.replace("array zz[n];", "val zz2 = n;"), 1)
+    return "%s\n%s\n%s\n%s\n" % (globs, "\n".join(procs), w, main)
 
 
 def deep_x(rnd):
@@ -131,8 +213,14 @@ def x_case(rnd, corpus):
         return "printable", "".join(rnd.choice(" \n\tabcxyz019(){}[];,:=+-<>~'\"|#") for _ in range(rnd.randrange(0, 300))).encode()
     if r < 0.26:
         return "token-soup", " ".join(rnd.choice(X_TOKENS) for _ in range(rnd.randrange(1, 60))).encode("latin-1")
-    if r < 0.40:
+    if r < 0.33:
         return "odd-semantics", odd_x(rnd).encode("latin-1")
+    if r < 0.40:
+        k, u = rnd.choice(KINDS), rnd.choice(USES)
+        text = kind_matrix_program(k, u)
+        if rnd.random() < 0.2:
+            text = mutate(text, rnd, X_TOKENS)
+        return "kind-matrix", text.encode("latin-1")
     if r < 0.46:
         return "deep-nesting", deep_x(rnd).encode()
     base = rnd.choice(corpus)
@@ -150,16 +238,22 @@ def x_corpus(rnd, n, shipped):
     return out
 
 
+def odd_asm_forms():
+    return list(_ODD_ASM)
+
+
 def odd_asm(rnd):
-    forms = [
+    return rnd.choice(_ODD_ASM)
+
+
+_ODD_ASM = [
         "", "# c", "   \n\t\n", "lab", "lab lab", "lab\nlab\nBR lab", "BR lab", "LDAM lab\nLDAC 1\nlab\nDATA 1", "LDAC", "LDAC -", "LDAC - 5",
         "LDAC -0", "DATA", "DATA -", "DATA 99999999999999999999", "OPR", "OPR LDAC", "OPR 3", "OPR lab", "FUNC", "PROC", "FUNC f\nFUNC f\nBR f",
         "PROC 7", "FUNC LDAC", "LDAC LDAC", "BR BR", "ADD", "SVC\nBRB", "LDAC 1 2 3", "LDAC 4294967295", "LDAC 4294967296", "LDAC -4294967295",
         "LDAC 18446744073709551615", "BR -2147483648", "LDAM 2147483648", "PFIX 1", "NFIX 2", "x_1\ny__\nBR x_1\nBRZ y__", "A\nDATA 1\nLDAM A",
         "LDAC 1\nx\nLDAM x", "x\nLDAC 1\nLDAM x", "BR f\nLDAC 1", "LDAP",
         "a\nBR b\nb\nBR a\n" * 3, "DATA 1\nDATA 2\nDATA 3", "OPR SVC OPR ADD", "start\nLDAC start\nLDBC start\nSTAM start",
-    ]
-    return rnd.choice(forms)
+]
 
 
 def ring_asm(rnd):
